@@ -13,17 +13,17 @@ PLAN = dict(
          "powers of two, multiples of 8 +-1 up to 137 and a stride of 5); c13.built constructs semantically valid but "
          "mis-sized payloads with the public API; c13.modes drives AEAD Open (every length 0..200 and every cut of a genuine "
          "ciphertext) and the XTS/HCTR decrypters in every SM4 dispatch tier; c13.sweep.tiers / c13.built.tiers repeat the "
-         "entry points that decrypt content with an SM4 mode in the noclmul and noaes tiers (thorough: avx, sse, aesni1 too). One case = (entry point, artefact, mutator, range of <= 256 positions); "
+         "entry points that decrypt content with an SM4 mode in the noclmul, noaes, avx and sse tiers (thorough: aesni1 too), every constructed payload of 1..8 blocks in both guard placements; a der-oid mutator puts every value into the last two bytes of every OBJECT IDENTIFIER and replaces it by the other OIDs known to the run (seed OIDs + the library's exported ones; sampled in quick). One case = (entry point, artefact, mutator, range of <= 256 positions); "
          "distinct = configuration | entry point / mutator. The hostile bytes sit in guard-page buffers (len == cap), three of "
          "four mutants against the upper page and one against the lower (thorough: every mutant in both placements).",
     jobs=both("c13.sweep", ["avx2", "purego"], shards=(8, 16), floor=2000)
          + both("c13.built", ["avx2", "purego"], shards=(2, 4), floor=50)
          + both("c13.modes", ["avx2", "avx", "sse", "noclmul", "noaes", "aesni1", "purego"], shards=(1, 2), floor=80)
          # every other SM4 mode implementation tier for the entry points that decrypt content with an SM4 mode
-         + [J("c13.sweep.tiers", ["noclmul", "noaes"], "asm", shards=(2, 4), floor=500),
-            J("c13.built.tiers", ["noclmul", "noaes"], "asm", shards=(1, 2), floor=20),
-            dict(J("c13.sweep.tiers", ["avx", "sse", "aesni1"], "asm", shards=(4, 4), floor=500), thorough_only=True),
-            dict(J("c13.built.tiers", ["avx", "sse", "aesni1"], "asm", shards=(2, 2), floor=20), thorough_only=True)]
+         + [J("c13.sweep.tiers", ["noclmul", "noaes", "avx", "sse"], "asm", shards=(2, 4), floor=500),
+            J("c13.built.tiers", ["noclmul", "noaes", "avx", "sse"], "asm", shards=(1, 2), floor=20),
+            dict(J("c13.sweep.tiers", ["aesni1"], "asm", shards=(4, 4), floor=500), thorough_only=True),
+            dict(J("c13.built.tiers", ["aesni1"], "asm", shards=(2, 2), floor=20), thorough_only=True)]
          + [dict(J("c13.sweep", ["avx2"], "race", shards=(8, 16), floor=2000), thorough_only=True),
             dict(J("c13.built", ["avx2"], "race", shards=(4, 4), floor=50), thorough_only=True),
             dict(J("c13.modes", ["avx2"], "race", shards=(1, 2), floor=80), thorough_only=True)],
